@@ -131,6 +131,8 @@ def main(ck):
     nanny_reports = 0
     asan_reports = {}
     crashes_n = 0
+    order_examples = []
+    nanny_loaded = []
 
     for cfg, bdir, binfo, as_gb in configs:
         def one(job):
@@ -155,15 +157,15 @@ def main(ck):
                 for k, v in s['kinds'].items():
                     totals['kinds'][k] = totals['kinds'].get(k, 0) + v
                 samples.extend(s['samples'][:1])
+                if cfg == 'nanny':
+                    nanny_loaded.append(bool(s.get('refnanny_module') and s['refnanny_module'].startswith(bdir)))
             wit = {'module_source': mods[name], 'module_name': name, 'config': cfg, 'runtime': 'vlib/gen/faultgen.py RUNTIME'}
             for rec in records:
                 t = rec['type']
                 if t == 'order':
-                    # different dunder-call sequences without injection: evaluation order/count differs (C20's subject);
-                    # reported here because it invalidates the injection comparison for that function
-                    ck.discrepancy('tick-sequence-differs:%s' % '/'.join(rec['ref'][:1] + ['->'] + rec['got'][:1]) if False else
-                                   'tick-sequence-differs', 'unarmed run calls dunders in a different order/count: %s vs %s in %s%s'
-                                   % (rec['ref'], rec['got'], rec['f'], rec['vals']), dict(wit, record=rec))
+                    # different dunder-call sequences without injection: evaluation order/count differs (C19/C20's
+                    # subject); such functions are dropped from the injection comparison and counted
+                    order_examples.append({'f': rec['f'], 'ref': rec['ref'], 'got': rec['got']})
                 elif t == 'refcount':
                     ck.discrepancy('refcount-drift', 'refcount of tracked objects changed %s -> %s after %s' %
                                    (rec['before'], rec['after'], rec['f']), dict(wit, record=rec))
@@ -172,7 +174,10 @@ def main(ck):
                         ck.discrepancy('leak:%s:%s' % (t, rec.get('kind', '-')),
                                        '%d instrumented object(s) still alive after %s%s k=%s (%s)' %
                                        (rec['leak'], rec['f'], rec['vals'], rec.get('k'), rec.get('kind')), dict(wit, record=rec))
-                    if rec['exp'] != rec['got'] or not rec.get('kinds_equal', True):
+                    if rec['exp'] == rec['got'] and not rec.get('kinds_equal', True) and not rec.get('leak'):
+                        totals['order_mismatch'] += 1
+                        order_examples.append({'f': rec['f'], 'k': rec.get('k'), 'kind': rec.get('kind')})
+                    if rec['exp'] != rec['got']:
                         ck.discrepancy('%s:%s:%s->%s' % (t, rec.get('kind', '-'), cls(rec['exp']), cls(rec['got'])),
                                        '%s%s k=%s (%s): CPython %s, compiled %s' % (rec['f'], rec['vals'], rec.get('k'), rec.get('kind'),
                                                                                   str(rec['exp'])[:200], str(rec['got'])[:200]),
@@ -199,6 +204,7 @@ def main(ck):
                     ck.discrepancy(key, '%s report in %s: %s' % (r['tool'], r['func'], r['kind']), dict(wit, report=r['text']))
     ck.inconclusive_if(failed > max(1, nmods // 5), '%d of %d modules failed to build' % (failed, nmods))
     ck.inconclusive_if(totals['injected_runs'] < ck.pick(1000, 20000), 'fewer injected runs than the floor')
+    ck.inconclusive_if(not nanny_loaded or not all(nanny_loaded), 'the reference nanny built from the tree was not the one loaded')
     ck.inconclusive_if(len(totals['kinds']) < 10, 'fewer than 10 kinds of fallible call were injected')
     return ck.finish(
         totals['runs'], totals['distinct'],
@@ -210,8 +216,8 @@ def main(ck):
         extra={'modules': len(mods), 'functions_x_inputs': totals['functions'], 'injected_runs': totals['injected_runs'],
                'injection_points_by_kind': dict(sorted(totals['kinds'].items())), 'max_fallible_calls_in_one_run': totals['max_ticks'],
                'injection_propagated_to_caller': totals['propagated'], 'injection_handled_by_program': totals['caught_by_program'],
-               'dropped_tick_order_mismatch': totals['order_mismatch'], 'dropped_reference_not_clean': totals['ref_unclean'],
-               'refnanny_reports': nanny_reports, 'asan_reports': asan_reports, 'crashes': crashes_n,
+               'dropped_tick_order_mismatch': totals['order_mismatch'], 'tick_order_mismatch_examples': order_examples[:5], 'dropped_reference_not_clean': totals['ref_unclean'],
+               'refnanny_reports': nanny_reports, 'refnanny_from_tree_loaded_in_runs': len(nanny_loaded), 'asan_reports': asan_reports, 'crashes': crashes_n,
                'configs': [c[0] for c in configs], 'statement_templates_used': len(feats),
                'blocks': {k: v for k, v in feats.items() if k.startswith('block:')}},
         assumptions=['no debug CPython (no sys.gettotalrefcount): balance is observed through refnanny, live-instance counters, '
